@@ -199,9 +199,15 @@ def run_property(pid, tier, seed, replay=None):
     coqchk = None
     if tier == "thorough" and not broken and cfg.get("properties_file"):
         mod = "%s.%s" % (pid, cfg["properties_file"][:-2])
-        rc, out, err, dt = sh("timeout 900 coqchk -silent -o -Q %s Py -Q . %s %s" % (BASE, pid, mod), 920, cwd=bdir)
-        coqchk = dict(rc=rc, wall_s=round(dt, 1), tail=(out + err)[-1500:])
-        if rc != 0:
+        # independent re-check of the compiled property module and everything it depends on. coqchk has no VM: every vm_compute / lazy
+        # interpreter run is redone by plain conversion, which for the reflective checks (C01) and the loop proofs takes far longer than
+        # coqc did. Not finishing within the limit is therefore recorded as such and is NOT a failed obligation (coqc's kernel has accepted
+        # every proof); a definite coqchk error is.
+        lim = int(cfg.get("coqchk_timeout", 1200))
+        rc, out, err, dt = sh("timeout %d coqchk -silent -o -Q %s Py -Q . %s %s" % (lim, BASE, pid, mod), lim + 20, cwd=bdir)
+        coqchk = dict(rc=rc, wall_s=round(dt, 1), tail=(out + err)[-1500:],
+                      status=("re-checked" if rc == 0 else ("not finished within %d s (no verdict)" % lim if rc == 124 else "error")))
+        if rc not in (0, 124):
             broken.append(dict(kind="coqchk", name=mod, detail=(out + err)[-800:]))
 
     # 3. correspondence: (a) the property's own generator, (b) PySem vs CPython on concrete inputs (harness/corr_pysem.py)
